@@ -87,7 +87,7 @@ From Bardolph Require Import Lang.Syntax Lang.Sem Lang.ExprCompile Lang.Simulati
 Theorem C05_structured_control_leads_where_the_source_says :
   forall rt mt, bodies_ok rt mt -> forall inl inr st, SimpleB rt mt inl inr st ->
   forall after im ss s sig ss' fuel, routines_loaded rt mt im -> in_loop_ok inl after -> in_ret_ok inr (m_frames s) ->
-  depth_ok (m_frames s) (zlength (m_stack s)) -> sim ss s -> code_at im (m_pc s) (c_stmt rt mt false after st) ->
+  in_depth_ok inr s -> sim ss s -> code_at im (m_pc s) (c_stmt rt mt false after st) ->
   Sem.exec rt mt fuel false ss st = ROk sig ss' ->
   (sig = SigNormal /\ exists n s' evs, esteps n im s = Some (s', evs) /\ m_pc s' = m_pc s + zlength (c_stmt rt mt false after st) /\
                                        (m_stack s', fr s') = (m_stack s, fr s)) \/
